@@ -95,6 +95,8 @@ func takeSnap(o object.PanObject, depth int) *snap {
 		n.i = int64(len(*v.Pairs))
 	case *object.PanErrWrapper:
 		n.s = string(v.ErrKind) + ": " + v.Msg
+	case *object.PanErr:
+		n.s = string(v.ErrKind) + ": " + v.Msg + "\x00" + v.StackTrace
 	}
 	return n
 }
